@@ -141,12 +141,82 @@ def gen_problem(rng, family=None, nmax=6, mmax=3, fixed_prob=0.3, allow_dom=True
     return spec, x0, y0
 
 
+def integer_bounds(rng, spec, x0):
+    """All variable and row bounds become finite integers, so that the bound arrays can be handed over
+    with an integer dtype (arrays written with integer literals).  Returns the (re-clipped) start."""
+    xl, xu = np.array(spec["xl"], float), np.array(spec["xu"], float)
+    x0 = np.array(x0, float)
+    for j in range(spec["n"]):
+        if xl[j] == xu[j]:
+            xl[j] = xu[j] = np.round(xl[j])
+            continue
+        lo = np.floor(xl[j]) if np.isfinite(xl[j]) else np.floor(min(x0[j], 0.0) - int(rng.integers(1, 6)))
+        hi = np.ceil(xu[j]) if np.isfinite(xu[j]) else np.ceil(max(x0[j], 0.0) + int(rng.integers(1, 6)))
+        xl[j], xu[j] = lo, max(hi, lo)
+    cl, cu = np.array(spec["cl"], float), np.array(spec["cu"], float)
+    for i in range(spec["m"]):
+        if cl[i] == cu[i]:
+            cl[i] = cu[i] = np.round(cl[i])
+            continue
+        lo = np.floor(cl[i]) if np.isfinite(cl[i]) else -float(rng.integers(20, 60))
+        hi = np.ceil(cu[i]) if np.isfinite(cu[i]) else float(rng.integers(20, 60))
+        cl[i], cu[i] = lo, max(hi, lo)
+    spec["xl"], spec["xu"], spec["cl"], spec["cu"] = xl, xu, cl, cu
+    spec["int_bounds"] = True
+    return np.clip(x0, xl, xu)
+
+
+def start_forms(rng, spec, x0, y0, p=0.15):
+    """solve() may be called without a start (None: the origin clipped into the box, zero multipliers)
+    or with scalars that are broadcast.  Returns (effective x0, effective y0, start_form dict)."""
+    x0 = np.array(x0, float)
+    y0 = np.array(y0, float)
+    form = {}
+    xl, xu = np.array(spec["xl"], float), np.array(spec["xu"], float)
+    u = rng.random()
+    if u < p:
+        form["x"] = "none"
+        x0 = np.clip(np.zeros(spec["n"]), xl, xu)
+    elif u < 1.5 * p:
+        lo, hi = float(np.max(xl)), float(np.min(xu))
+        if lo <= hi:
+            s = float(np.round(np.clip(rng.normal(), lo, hi), 3))
+            s = min(max(s, lo), hi)
+            form["x"] = "scalar"
+            x0 = np.full(spec["n"], s)
+    u = rng.random()
+    if u < p:
+        form["y"] = "none"
+        y0 = np.zeros(spec["m"])
+    elif u < 1.5 * p and spec["m"]:
+        form["y"] = "scalar"
+        y0 = np.full(spec["m"], float(np.round(rng.normal(), 3)))
+    return x0, y0, form
+
+
 ALGO_KNOBS = ("newton_type", "step_solver_type", "linear_solver_type", "step_control_type", "penalty_update", "active_set_type")
 
 
-def gen_params(rng, spec, x0, y0, *, p_knob=0.5, scaling=True, globalized=True, filters=True, reporting=False, limits=True):
-    """Configuration swarm: each knob leaves its default with probability p_knob."""
+NUMERIC_KNOBS = {
+    # tuning constants of the controllers / Newton loop / tolerances: legal, rarely-changed values
+    "newton_tol": [1e-10, 1e-6, 1e-4],
+    "theta_max": [0.5, 0.99],
+    "theta_ref": [0.1, 0.25, 0.45],
+    "K_P": [0.0, 0.05, 0.5],
+    "K_I": [0.0, 0.05],
+    "lamb_min": [1e-6, 1e-2, 0.5],
+    "lamb_red": [0.1, 0.25, 0.9],
+    "lamb_inc": [1.5, 4.0, 10.0],
+    "active_tol": [1e-10, 1e-6],
+    "opt_tol": [1e-8, 1e-4],
+}
+
+
+def gen_params(rng, spec, x0, y0, *, p_knob=0.5, scaling=True, globalized=True, filters=True, reporting=False, limits=True, numeric=0.0):
+    """Configuration swarm: each knob leaves its default with probability p_knob; with probability
+    `numeric` one to three numeric tuning constants leave their defaults as well."""
     kw = {}
+    num_rng = np.random.default_rng(int(rng.integers(0, 2**31))) if numeric else None
 
     def on():
         return rng.random() < p_knob
@@ -194,6 +264,15 @@ def gen_params(rng, spec, x0, y0, *, p_knob=0.5, scaling=True, globalized=True, 
             kw["report_rcond"] = True
         if rng.random() < 0.3:
             kw["collect_path"] = True
+    if numeric and num_rng.random() < numeric:
+        names = sorted(NUMERIC_KNOBS)
+        for _ in range(int(num_rng.integers(1, 4))):
+            k = names[int(num_rng.integers(0, len(names)))]
+            kw.setdefault(k, float(num_rng.choice(NUMERIC_KNOBS[k])))
+        if kw.get("lamb_min", 0.0) >= kw.get("lamb_init", 1.0):
+            # the floor of the inverse step size lies *above* its start value: legal, and the
+            # place where a floor that is applied in one spot but not another shows
+            pass
     return kw
 
 
@@ -224,11 +303,17 @@ def gen_clock(rng, n=4000, kind=None):
 def gen_obs(rng):
     lvl = str(rng.choice(["CRITICAL", "WARNING", "INFO", "DEBUG"]))
     cbs = [] if rng.random() < 0.5 else ["touch"]
+    u = rng.random()
+    if u < 0.08:
+        cbs.append("oneshot")
+    elif u < 0.16:
+        cbs.append("spawner")
     return {"level": lvl, "callbacks": cbs}
 
 
-def base_world(seed, profile, index, spec, x0, y0, params, clock=None, obs=None, faults=None, solver="homotopy", case=None):
+def base_world(seed, profile, index, spec, x0, y0, params, clock=None, obs=None, faults=None, solver="homotopy", case=None, start_form=None):
     return {
+        "start_form": start_form or {},
         "v": 1,
         "seed": int(seed),
         "profile": profile,
